@@ -188,3 +188,13 @@ package badger
 //@   assert at "ch <- errorableKV{nil, err}": resolved
 //@   assert at "ch <- errorableKV{kv, nil}": resolved
 //@   ensures len(values) != 0 ==> resolved
+
+// DeleteAll (C06: deleting one instance changes nothing another instance returns): the keys handed to the
+// write batch are private copies. badger's Item.Key() is valid only until the iterator advances and the
+// batch keeps the slice it is given, so a batched delete of an aliased key removes whatever key the
+// iterator's buffer holds when the batch is flushed.
+//@ func BadgerDB.DeleteAll$1
+//@   prop C06 C05
+//@   safety_off
+//@   modifies *
+//@   assert at "wb.Delete(k)": k == nil || fresh(k)
